@@ -14,6 +14,7 @@ var run *ev.Run
 
 func main() {
 	tier := flag.String("tier", "", "quick|thorough")
+	replay := flag.String("replay", "", "replay file: report only the violation it records")
 	prop := flag.String("prop", "", "C11|C12")
 	child := flag.String("c11-child", "", "internal: run a shard (i/n) or one scenario (only:i) of C11 and print JSON lines")
 	flag.Parse()
@@ -29,6 +30,9 @@ func main() {
 	run.SetBudget(10 * time.Minute)
 	if run.Thorough() {
 		run.SetBudget(40 * time.Minute)
+	}
+	if *replay != "" {
+		run.SetReplay(*replay)
 	}
 	f()
 	run.Finish()
